@@ -221,7 +221,7 @@ def select_scenarios(prop, tier):
     fams = [s for s in families.all_families(nws) if prop in s["props"]]
     if prop in ("C04", "C05", "C06", "C15"):
         # seeded random well-typed systems (no promise about termination or confluence)
-        k = 10 if tier == "quick" else 120
+        k = 25 if tier == "quick" else 160
         fams += [families.random_scenario(common.seed() * 1000 + i, 2) for i in range(k)]
     if os.environ.get("RT_ONLY"):       # development aid: only the scenarios whose name contains the given text
         return [s for s in fams if os.environ["RT_ONLY"] in s["name"]]
